@@ -46,6 +46,7 @@ fn main() {
   let opts = h_util::Opts::parse(&args[2..]);
   let code = match args[1].as_str() {
     "mapper" => h_mapper::run(&opts),
+    "replay-mapper" => h_mapper::replay(&opts),
     other => {
       eprintln!("unknown suite {}", other);
       2
